@@ -117,6 +117,11 @@ class RandShim(object):
         return w.rng_choice.randrange(*a)
 
 
+class SimDeath(BaseException):
+    """the simulated server process dies here (kill -9): raised from a database call and from
+    every later one of the same event, so that whatever still runs has no effect"""
+
+
 class OsShim(object):
     """Stands in for `os` inside server.py (only urandom is used there)."""
 
